@@ -170,6 +170,19 @@ CLAIMED['C09'] = dict(
     design='§5 C09',
     technique="solver-decided non-interference per decision site: MIR scan + symbolic execution of the real partial_cmp (mirsym), cvc5/z3; corpus replay")
 
+CLAIMED['C11'] = dict(
+    category='model_checking',
+    text="The style-edition-2024 comparator, on its real MIR: (a) VersionChunkIter::{next,parse_numeric_chunk,parse_str_chunk} over symbolic ASCII "
+         "identifiers of every length 0..4 (thorough 6) plus all-digit identifiers of 20 and 21 characters: on every path the chunks partition the "
+         "identifier, are maximal, have the right kind, numeric value and leading-zero count; (b) version_sort over harness chunk lists with symbolic "
+         "kinds/values/zero counts and uninterpreted texts: antisymmetric, reflexive, Equal only for identical chunk lists (pairs up to 3, thorough 4 "
+         "chunks), transitive (triples up to 2, thorough 3 chunks). Together: a total preorder in which only identical identifiers tie, so the sorted "
+         "order cannot depend on the input order.",
+    note="Known finding (open): a digit run >= 2^64 ends the chunk iterator early. Trusted: MIR printer, mirsym, string model for ASCII identifiers of "
+         "concrete length, str::cmp as a ground-instantiated total order on chunk texts with digits < letters, zip_longest/EitherOrBoth cursor. Outside: "
+         "group delimiting and attachment of comments (AST), the <= 2021 UseSegment order, compare_items, permutation -> same text.",
+    design='§5 C11')
+
 NA = {
     'C01': "token-sequence equivalence over all programs requires symbolic execution of rustc_parse and ~30 kLoC of AST rewriters; no encodable kernel carries it",
     'C02': "fixed-point of the full formatting pipeline (parser + all rewriters on both sides); not encodable, and idempotence of kernels does not imply it",
